@@ -660,6 +660,10 @@ def evaluate_model(ctx, probes, workdir):
             f.write(p.model + "\n")
     with common.Lock("lean"):
         t = time.time()
+        # the evaluator imports the compiled table: make sure it is the one generated from the current source
+        rc, txt = common.sh("lake build BumpVerif.Gen.Api BumpVerif.Model.Borrow", cwd=LEAN_DIR, timeout=1200)
+        if rc != 0:
+            return None, "lake build BumpVerif.Gen.Api BumpVerif.Model.Borrow failed: " + txt[-600:]
         with open(inp, "rb") as fh:
             rc, txt = common.sh(["lake", "env", "lean", "--run", "Driver/BorrowMain.lean"], cwd=LEAN_DIR, timeout=1200, stdin=fh)
         ctx.log(f"model evaluator (lean --run Driver/BorrowMain.lean, {len(probes)} probes): rc={rc} in {time.time() - t:.1f}s")
